@@ -34,6 +34,8 @@ pub enum ColorKind {
     Bgr555,
     Bgr565,
     Bgr888,
+    /// harness-defined colour with a user-written `ColorMapping` (non-ASCII pattern characters)
+    User8,
 }
 
 impl ColorKind {
@@ -52,6 +54,7 @@ impl ColorKind {
             ColorKind::Bgr555 => "Bgr555",
             ColorKind::Bgr565 => "Bgr565",
             ColorKind::Bgr888 => "Bgr888",
+            ColorKind::User8 => "UserColor8",
         }
     }
     pub fn bits(self) -> u32 {
@@ -64,7 +67,7 @@ impl ColorKind {
             ColorKind::Rgb888 => 24,
             ColorKind::C32 => 32,
             // number of used bits = range of the raw colour values (C20 draws no raw images of these)
-            ColorKind::Rgb332 => 8,
+            ColorKind::Rgb332 | ColorKind::User8 => 8,
             ColorKind::Rgb444 => 12,
             ColorKind::Rgb555 | ColorKind::Bgr555 => 15,
             ColorKind::Bgr565 => 16,
@@ -95,6 +98,30 @@ impl From<RawU32> for C32 {
 impl From<C32> for RawU32 {
     fn from(c: C32) -> Self {
         RawU32::new(c.0)
+    }
+}
+
+/// Harness-defined 8-bit colour standing for a colour type written by a user of the library, with
+/// its own `ColorMapping` (props/c20.rs) whose pattern characters are not all ASCII.
+#[derive(Clone, Copy, PartialEq, Eq, Debug)]
+pub struct Cu8(pub u8);
+
+impl PixelColor for Cu8 {
+    type Raw = embedded_graphics::pixelcolor::raw::RawU8;
+}
+impl From<embedded_graphics::pixelcolor::raw::RawU8> for Cu8 {
+    fn from(r: embedded_graphics::pixelcolor::raw::RawU8) -> Self {
+        Cu8(r.into_inner())
+    }
+}
+impl From<Cu8> for embedded_graphics::pixelcolor::raw::RawU8 {
+    fn from(c: Cu8) -> Self {
+        embedded_graphics::pixelcolor::raw::RawU8::new(c.0)
+    }
+}
+impl From<Cu8> for Rgb888 {
+    fn from(c: Cu8) -> Self {
+        Rgb888::new(c.0, c.0 / 2, 255 - c.0)
     }
 }
 
@@ -181,6 +208,15 @@ sim_color!(Rgb555, Rgb555, Rgb555);
 sim_color!(Bgr555, Bgr555, Bgr555);
 sim_color!(Bgr565, Bgr565, Bgr565);
 sim_color!(Bgr888, Bgr888, Bgr888);
+impl SimColor for Cu8 {
+    const KIND: ColorKind = ColorKind::User8;
+    type Down = Cu8;
+    fn to_u32(self) -> u32 {
+        self.0 as u32
+    }
+    with_image_impl!(Cu8);
+    new_const_impl!(Cu8);
+}
 impl SimColor for C32 {
     const KIND: ColorKind = ColorKind::C32;
     type Down = C32;
